@@ -48,6 +48,29 @@ def delegation(ctx, meths, rule='C14.D1'):
     still = []
     for name in over:
         fn = meths[name]
+        if name == 'pop':
+            # the mixin: v = self[index]; del self[index]; return v
+            s_ = _self(fn)
+            i_ = fn.args.args[1].arg if len(fn.args.args) > 1 else ''
+            body = [x for x in fn.body if not (isinstance(x, ast.Expr) and isinstance(x.value, ast.Constant))]
+            texts = [norm(x) for x in body]
+            reads = [x.targets[0].id for x in body if isinstance(x, ast.Assign) and len(x.targets) == 1
+                     and isinstance(x.targets[0], ast.Name) and norm(x.value) == '%s[%s]' % (s_, i_)]
+            v_ = reads[0] if reads else None
+            by_value = [c for c in walk_no_nested(fn) if isinstance(c, ast.Call) and norm(c.func) in ('%s.remove' % s_, '%s._row.remove' % s_)]
+            dflt = [norm(d) for d in fn.args.defaults]
+            if v_ and texts == ['%s = %s[%s]' % (v_, s_, i_), 'del %s[%s]' % (s_, i_), 'return %s' % v_] and dflt == ['-1']:
+                ctx.ob(rule, 'Grid.pop is the mixin spelled out: read the row at the index, delete at the index, return it', True,
+                       '%s:%d' % (F, fn.lineno))
+            elif by_value:
+                ctx.violation(rule, '%s::Grid.pop' % F, norm(by_value[0]),
+                              'g.append(a); g.append(b); g.append(a); g.pop(): a list is left as [a, b], the grid as [b, a] -- the '
+                              'row is removed by VALUE (the first row that is or equals it), not at the index that was asked for',
+                              'Grid.pop removes with remove(<row>), which deletes the first equal row, not the row at the index',
+                              file=F, line=by_value[0].lineno, engine='E9')
+            else:
+                still.append(name)
+            continue
         if name not in READ_FORMS:
             still.append(name)
             continue
@@ -517,6 +540,38 @@ def _following(st):
     return out
 
 
+def reindex_form(meths):
+    """'inplace': self._index = {} and then filled entry by entry;  'local': a local dict is filled and then stored in
+    self._index with one assignment;  None: neither (not the canonical rebuild)"""
+    fn = meths.get('reindex')
+    if fn is None:
+        return None
+    s = _self(fn)
+    body = body_wo_doc(fn)
+
+    def loop_fills(lp, target):
+        if not (isinstance(lp, ast.For) and norm(lp.iter) == '%s._row' % s and isinstance(lp.target, ast.Name)):
+            return False
+        it = lp.target.id
+        inner = lp.body
+        return len(inner) == 1 and isinstance(inner[0], ast.If) and norm(inner[0].test) == "'id' in %s" % it and not inner[0].orelse \
+            and [norm(b) for b in inner[0].body] == ["%s[str(%s['id'])] = %s" % (target, it, it)] and not lp.orelse
+    if len(body) == 2 and norm(body[0]) == '%s._index = {}' % s and loop_fills(body[1], '%s._index' % s):
+        return 'inplace'
+    if len(body) == 3 and isinstance(body[0], ast.Assign) and len(body[0].targets) == 1 and isinstance(body[0].targets[0], ast.Name) \
+            and norm(body[0].value) in ('{}', 'dict()'):
+        loc = body[0].targets[0].id
+        if loop_fills(body[1], loc) and norm(body[2]) == '%s._index = %s' % (s, loc):
+            return 'local'
+    if len(body) == 1 and isinstance(body[0], ast.Assign) and norm(body[0].targets[0]) == '%s._index' % s \
+            and isinstance(body[0].value, ast.DictComp) and len(body[0].value.generators) == 1:
+        g = body[0].value.generators[0]
+        if isinstance(g.target, ast.Name) and norm(g.iter) == '%s._row' % s and [norm(i) for i in g.ifs] == ["'id' in %s" % g.target.id] \
+                and norm(body[0].value.key) == "str(%s['id'])" % g.target.id and norm(body[0].value.value) == g.target.id:
+            return 'local'
+    return None
+
+
 def reindex_shape(ctx, meths, rule='C15.D1'):
     fn = meths.get('reindex')
     if fn is None:
@@ -524,18 +579,13 @@ def reindex_shape(ctx, meths, rule='C15.D1'):
         return
     s = _self(fn)
     body = body_wo_doc(fn)
-    ok = len(body) == 2 and norm(body[0]) == '%s._index = {}' % s and isinstance(body[1], ast.For) \
-        and norm(body[1].iter) == '%s._row' % s and isinstance(body[1].target, ast.Name)
-    if ok:
-        it = body[1].target.id
-        inner = body[1].body
-        ok = len(inner) == 1 and isinstance(inner[0], ast.If) and norm(inner[0].test) == "'id' in %s" % it \
-            and [norm(b) for b in inner[0].body] == ["%s._index[str(%s['id'])] = %s" % (s, it, it)]
-    if ok:
-        ctx.ob(rule, 'reindex() rebuilds {str(r["id"]): r for r in rows if "id" in r}', True, '%s:%d' % (F, fn.lineno))
+    form = reindex_form(meths)
+    if form:
+        ctx.ob(rule, 'reindex() rebuilds {str(r["id"]): r for r in rows if "id" in r} (%s)'
+               % ('filled in place' if form == 'inplace' else 'built aside, stored with one assignment'), True, '%s:%d' % (F, fn.lineno))
     else:
         texts = '\n'.join(norm(b) for b in body)
-        if '%s._index = {}' % s not in texts:
+        if '%s._index = {}' % s not in texts and '= {}' not in texts and 'dict()' not in texts:
             wit = 'after reindex() entries of deleted rows survive'
         elif 'str(' not in texts:
             wit = "row id Ref('a') / 7: grid['a'] / grid[…] raises KeyError because entries are not keyed by str(id)"
@@ -551,9 +601,12 @@ def key_normaliser(ctx, meths, rule='C15.D2'):
     n = 0
     for name, fn in meths.items():
         s = _self(fn)
+        # a local dict that is stored into self._index later in the method IS the index being built
+        aside = {norm(a.value) for a in walk_no_nested(fn) if isinstance(a, ast.Assign) and isinstance(a.value, ast.Name)
+                 and any(norm(t) == '%s._index' % s for t in a.targets)}
         for node in walk_no_nested(fn):
             key = None
-            if isinstance(node, ast.Subscript) and norm(node.value) == '%s._index' % s:
+            if isinstance(node, ast.Subscript) and (norm(node.value) == '%s._index' % s or norm(node.value) in aside):
                 key = node.slice
             elif isinstance(node, ast.Call) and isinstance(node.func, ast.Attribute) \
                     and norm(node.func.value) == '%s._index' % s and node.func.attr in ('get', 'pop', 'setdefault') \
